@@ -84,6 +84,16 @@ func (lv *LeafVariants) canDelete() bool {
 		return false
 	}
 
+	// the same holds if running is only accompanied by the schema default (leafs with a default value
+	// always carry the default variant): the running value belongs to somebody else
+	if !lv.containsOtherOwnerThenDefaultOrRunning() {
+		for _, l := range lv.les {
+			if l.Owner() == RunningIntentName {
+				return false
+			}
+		}
+	}
+
 	// go through all variants
 	for _, l := range lv.les {
 		// if the LeafVariant is not owned by running or default
